@@ -11,8 +11,6 @@ Lemma tie_default_suites :
   map (fun s => (su_auth s, su_integ s, su_conf s)) default_suites = G.defaultCipherSuites.
 Proof. reflexivity. Qed.
 
-Lemma tie_console_session_id : forall o s, oq_id (open_request o s) = G.console_session_id.
-Proof. reflexivity. Qed.
 
 (* algorithm tables (authenticator.go, hasher.go, confidentiality.go): hash and truncation per algorithm code *)
 Lemma tie_auth_table :
@@ -20,12 +18,12 @@ Lemma tie_auth_table :
   /\ auth_params 1 = Some (1, 12%nat) /\ auth_params 3 = Some (3, 16%nat) /\ auth_params 2 = Some (2, 0%nat).
 Proof. repeat split. Qed.
 Lemma tie_integrity_table :
-  G.integrity_table = [([0], "nil fmt.Errorf"); ([1], "hmac.New sha1.New g.K 1 12 nil"); ([2], "hmac.New md5.New g.K 1 nil");
-                       ([4], "hmac.New sha256.New g.K 1 16 nil"); ([], "nil fmt.Errorf")]%string
+  G.integrity_table = [([0], "nil fmt.Errorf"); ([1], "hmac.New sha1.New _.K 1 12 nil"); ([2], "hmac.New md5.New _.K 1 nil");
+                       ([4], "hmac.New sha256.New _.K 1 16 nil"); ([], "nil fmt.Errorf")]%string
   /\ integrity_params 1 = Some (Some (1, 12%nat)) /\ integrity_params 2 = Some (Some (2, 16%nat))
   /\ integrity_params 4 = Some (Some (3, 16%nat)).
 Proof. repeat split. Qed.
 Lemma tie_confidentiality_table :
-  G.confidentiality_table = [([0], "nil fmt.Errorf"); ([1], "16 g.K 2 ipmi.NewAES128CBC"); ([], "nil fmt.Errorf")]%string.
+  G.confidentiality_table = [([0], "nil fmt.Errorf"); ([1], "16 _.K 2 ipmi.NewAES128CBC"); ([], "nil fmt.Errorf")]%string.
 Proof. reflexivity. Qed.
 
